@@ -233,7 +233,6 @@ class Source(tuple, metaclass=abc.ABCMeta):
         except KeyError as err:
             raise AttributeError(f'Invalid feature {name}') from err
 
-    @functools.lru_cache
     def __getitem__(self, name: typing.Union[int, str]) -> typing.Any:
         try:
             return super().__getitem__(name)
